@@ -621,7 +621,7 @@ def tie_lit(case):
     order = []
     for direction, idx in (('fwd', jj), ('bwd', kk)):
         for cfg in ('std', 'emu'):
-            for mode in ('lit', 'iter'):
+            for mode in ('lit', 'iter', 'sum'):
                 t.lines.append('C01 impn %s %s %s %s %s' % (mode, direction, cfg, cfgargs, nat_list(idx)))
                 order.append((mode, direction, cfg))
 
@@ -642,12 +642,112 @@ def tie_lit(case):
                 e = maxerr(it, lit)
                 if not e <= 1e-12 * sc:
                     return 'modelled literal %d-D array program differs from the modelled iterated pipeline (%s, %s) by %.3g' % (ndim, direction, cfg, e)
+                sm = vals[('sum', direction, cfg)]
+                e = maxerr(sm, real)
+                if not e <= 1e-9 * sc:
+                    return 'FastFourierTransform.%s (%s) differs from the model\'s %d-D defining sum (sumForwardN/sumBackwardN) by %.3g' % (direction, cfg, ndim, e)
+                e = maxerr(sm, it)
+                if not e <= 1e-12 * sc:
+                    return 'the model\'s %d-D defining sum differs from the modelled iterated pipeline (%s, %s) by %.3g' % (ndim, direction, cfg, e)
         return None
     t.check = check
     t.counts = ['tie-lit:%dD' % ndim] + ['tie-lit-axis:' + ('padded' if Ms[d] > Ns[d] else 'unpadded') + ('+cropped' if Mos[d] < Ms[d] else '') for d in range(ndim)]
     t.sig = ('tie-lit', tuple(Ns), tuple(Ms), tuple(Mos), tuple(s != 0 for s in case['shift']))
     return t
 
+
+# ---------------------------------------------------------------------------------------------
+# get_fft_parameters ∘ FastFourierTransform: getFftParameters + plan (AxisReproduced, FftValuePre)  <->  the grid the re-built FFT reports
+
+def gen_roundtrip(rng):
+    ndim = int(rng.choice([1, 2, 2, 3]))
+    N = [int(rng.integers(1, 41)) for _ in range(ndim)]
+    q, fov = [], []
+    for d in range(ndim):
+        M = int(rng.integers(N[d], 4 * N[d] + 1)) if rng.integers(0, 3) else N[d]
+        q.append(M / N[d])
+        Mo = int(rng.integers(1, M + 1)) if rng.integers(0, 2) else M
+        fov.append(1.0 if Mo == M else (Mo + 0.5) / M)
+    # the requested grid: the FFT grid itself, or that grid scaled by a dyadic factor (mostly no FFT grid any more: q < 1 or q·N not an
+    # integer), and/or moved by a dyadic number of turns (stays an FFT grid; exercises the reconstructed shift)
+    scale = float(rng.choice([1.0, 1.0, 1.0, 1.125, 0.75, 0.5, 2.0]))
+    tshift = [dy(rng, -2, 2, 4) if rng.integers(0, 3) == 0 else 0.0 for _ in range(ndim)]
+    return {'family': 'tie-roundtrip', 'N': N, 'q': q, 'fov': fov, 'delta': [dy_nz(rng, 0.125, 2.0) for _ in range(ndim)], 'zero': [dy(rng, -2, 2) for _ in range(ndim)],
+            'shift': [dy(rng, -1, 1) if rng.integers(0, 2) else 0.0 for _ in range(ndim)], 'scale': scale, 'tshift': tshift}
+
+
+def tie_roundtrip(case):
+    import hcipy
+    from harness.props import c01
+    t = Tie()
+    ndim = len(case['N'])
+    g = _reg_grid(case['delta'], case['N'], case['zero'], None)
+    ft = hcipy.FastFourierTransform(g, np.array(case['q']), np.array(case['fov']), np.array(case['shift']))
+    dTs = c01.reported_dT(ft, case['delta'])
+    if dTs is None:
+        t.bad.append(('fft-grid-inconsistent', 'reported output spacing is not 2π/(M·δ) for any integer M'))
+        return t
+    og = ft.output_grid
+    Mos = [int(v) for v in og.dims]
+    sc = Fraction(case['scale'])
+    # the requested output grid, exactly: Mo points, spacing 2π·dT, zero 2π·zeroT + s
+    r_dT = [dTs[d] * sc for d in range(ndim)]
+    r_zT = [(-dTs[d] * (Mos[d] // 2)) * sc + Fraction(case['tshift'][d]) for d in range(ndim)]
+    r_s = [Fraction(case['shift'][d]) * sc for d in range(ndim)]
+    x_delta = np.array([float(TWO_PI_LD * _frac_ld(r_dT[d])) for d in range(ndim)])
+    x_zero = np.array([float(TWO_PI_LD * _frac_ld(r_zT[d]) + _frac_ld(r_s[d])) for d in range(ndim)])
+    # what the code sees: the floats of the FFT's own output grid, scaled / moved as a user would (grid.scaled, grid.shifted) — at scale 1 this
+    # is bit-for-bit the native FFT grid (a grid one ulp away from it sits on the float decision boundary q < 1 when q = 1)
+    r_delta = np.asarray(og.delta, dtype='float64') * np.ones(ndim) * case['scale']
+    r_zero = np.asarray(og.zero, dtype='float64') * np.ones(ndim) * case['scale'] + 2 * np.pi * np.array(case['tshift'], dtype='float64')
+    if np.abs(x_delta - r_delta).max() > 1e-12 * np.abs(r_delta).max() or np.abs(x_zero - r_zero).max() > 1e-9 * (np.abs(r_delta) * np.array(Mos) + np.abs(r_zero)).max():
+        raise MachineryError('tie-roundtrip: the exact encoding of the requested grid is not the grid handed to the code')
+    req = hcipy.CartesianGrid(hcipy.RegularCoords(r_delta, np.array(Mos), r_zero))
+    # exact q per axis: a request with q = 1 exactly on a scaled grid is decided by the rounding of one float division
+    q_exact = [1 / (Fraction(case['delta'][d]) * case['N'][d] * r_dT[d]) for d in range(ndim)]
+    try:
+        q2, fov2, shift2 = hcipy.fourier.get_fft_parameters(req, g)
+        err = None
+    except ValueError as e:
+        err = str(e)
+    got = None
+    if err is None:
+        ft2 = hcipy.FastFourierTransform(g, q2, fov2, shift2)
+        o2 = ft2.output_grid
+        got = ([int(v) for v in o2.dims], np.asarray(o2.delta, dtype='float64') * np.ones(ndim), np.asarray(o2.zero, dtype='float64') * np.ones(ndim))
+        tol = 1e-9 * np.maximum(np.abs(r_delta) * np.array(Mos), np.abs(r_zero))
+        if got[0] != Mos or np.any(np.abs(got[1] - r_delta) > 1e-9 * np.abs(r_delta)) or np.any(np.abs(got[2] - r_zero) > tol):
+            t.bad.append(('tie-fftparams-roundtrip', 'FastFourierTransform(input_grid, *get_fft_parameters(grid, input_grid)).output_grid is not the grid: dims %s delta %s zero %s '
+                          'for requested dims %s delta %s zero %s' % (got[0], got[1].tolist(), got[2].tolist(), Mos, r_delta.tolist(), r_zero.tolist())))
+    for d in range(ndim):
+        t.lines.append('C01 reproduce %d %s %d %s %s %s %s' % (case['N'][d], rat(case['delta'][d]), Mos[d], rat(r_dT[d]), rat(r_zT[d]), rat(r_s[d]), rat(case['zero'][d])))
+
+    def check(rs):
+        rejected = [d for d, r in enumerate(rs) if r == 'err value']
+        for r in rs:
+            if r != 'err value' and not r.startswith('ok '):
+                return 'model: %s' % r
+        if err is not None:
+            if not rejected and case['scale'] != 1.0 and 'would be < 1' in err and any(qe == 1 for qe in q_exact):
+                return 'boundary'
+            return None if rejected else 'get_fft_parameters raised ValueError (%s), the model accepts every axis: %s' % (err, rs)
+        if rejected:
+            return 'get_fft_parameters accepted the grid (q=%s fov=%s shift=%s), the model rejects axis %s' % (q2, fov2, shift2, rejected)
+        for d, r in enumerate(rs):
+            good, mMo, mdT, mzT, ms = r.split()[1:]
+            if good != '1':
+                return 'axis %d: the model says the reconstructed parameters do not reproduce the axis / violate the constructor preconditions: %s' % (d, r)
+            mdelta = float(TWO_PI_LD * _frac_ld(Fraction(mdT)))
+            mzero = float(TWO_PI_LD * _frac_ld(Fraction(mzT)) + _frac_ld(Fraction(ms)))
+            if int(mMo) != got[0][d] or abs(mdelta - got[1][d]) > 1e-9 * abs(mdelta) or abs(mzero - got[2][d]) > 1e-9 * max(abs(mdelta) * int(mMo), abs(mzero)):
+                return 'axis %d: the FFT re-built from get_fft_parameters reports dims %d delta %r zero %r, the model\'s plan %s points delta %r zero %r' % (
+                    d, got[0][d], float(got[1][d]), float(got[2][d]), mMo, mdelta, mzero)
+        return None
+    t.check = check
+    t.counts = ['tie-roundtrip:' + ('rejected' if err is not None else 'reproduced'), 'tie-roundtrip-scale:%g' % case['scale'],
+                'tie-roundtrip:%dD' % ndim] + (['tie-roundtrip:turn-shifted'] if any(case['tshift']) else [])
+    t.sig = ('tie-roundtrip', tuple(case['N']), tuple(Mos), case['scale'], err is None, tuple(bool(v) for v in case['tshift']))
+    return t
 
 # ---------------------------------------------------------------------------------------------
 # make_fourier_transform with the repaired detection: makeFT detectFix  <->  the class and the output grid of the object
@@ -767,7 +867,8 @@ def tie_select(case):
 # ---------------------------------------------------------------------------------------------
 
 GEN = {'tie-mft': (gen_mft, tie_mft), 'tie-czt': (gen_czt, tie_czt), 'tie-zoom': (gen_zoom, tie_zoom), 'tie-zoomaxes': (gen_zoomaxes, tie_zoomaxes),
-       'tie-state': (gen_state, tie_state), 'tie-lit': (gen_lit, tie_lit), 'tie-select': (gen_select, tie_select)}
+       'tie-state': (gen_state, tie_state), 'tie-lit': (gen_lit, tie_lit), 'tie-select': (gen_select, tie_select),
+       'tie-roundtrip': (gen_roundtrip, tie_roundtrip)}
 
 DIRECTED = [
     {'family': 'tie-zoomaxes', 'r': 1, 'ndim': 2, 'dir': 'fwd', 'seed': 1},        # D5: tensor field on a 2-D grid
@@ -822,7 +923,10 @@ def run_ties(ctx, counts):
     for start, cnt, chk, case in checks:
         detail = chk(out[start:start + cnt])
         ctx.traces_validated += 1
-        if detail is not None:
+        if detail == 'boundary':
+            ctx.boundary_skipped += 1
+            ctx.count('tie-boundary:' + case['family'])
+        elif detail is not None:
             ctx.disagree('C01 ' + case['family'], {'case': case, 'detail': detail})
 
 
@@ -834,7 +938,7 @@ def replay_case(ctx, case):
         ok = False
     if t.check is not None:
         detail = t.check(ctx.model(t.lines))
-        if detail is not None:
+        if detail is not None and detail != 'boundary':
             print('  model/implementation:', detail)
             ok = False
     return ok
